@@ -584,6 +584,37 @@ Section Decide.
       - eexists; reflexivity.
     Qed.
 
+    (* the decision on a hit depends on its frame only *)
+    Lemma hit_allowed_frame n (h h' : hit) : h_frame h = h_frame h' -> hit_allowed n h = hit_allowed n h'.
+    Proof. intros E. unfold hit_allowed, decide_hit. rewrite E. reflexivity. Qed.
+
+    Lemma filter_all {A} (f : A -> bool) l : Forall (fun x => f x = true) l -> filter f l = l.
+    Proof. induction 1 as [|x l Hx Hl IH]; cbn [filter]; [reflexivity|]. rewrite Hx, IH. reflexivity. Qed.
+
+    Lemma rerank_from_idem i (l : list hit) : rerank_from P i (rerank_from P i l) = rerank_from P i l.
+    Proof. revert i; induction l as [|h r IH]; intros i; cbn [rerank_from]; [reflexivity|]. cbn. rewrite IH. reflexivity. Qed.
+
+    Lemma rerank_from_allowed n i (l : list hit) :
+      Forall (fun h => hit_allowed n h = true) l -> Forall (fun h => hit_allowed n h = true) (rerank_from P i l).
+    Proof.
+      intros H. revert i. induction H as [|h r Hh Hr IH]; intros i; cbn [rerank_from]; constructor; [|apply IH].
+      rewrite <- Hh. apply hit_allowed_frame. reflexivity.
+    Qed.
+
+    (* the ACL stage is idempotent: its Enforce output is a fixed point of itself *)
+    Theorem apply_enforce_fixed_point hits c out st :
+      apply hits (Some c) Enforce = Ok (out, st) -> exists st', apply out (Some c) Enforce = Ok (out, st').
+    Proof.
+      intros E. destruct (normalize_acl_context json_str (Some c)) as [n|] eqn:En.
+      2:{ apply normalize_context_none in En. rewrite (apply_enforce_no_tenant hits c En) in E. discriminate. }
+      destruct (apply_enforce_ok hits c n En) as [st0 [E0 _]]. rewrite E0 in E. injection E as <- <-.
+      destruct (apply_enforce_ok (rerank P (filter (hit_allowed n) hits)) c n En) as [st' [E' _]].
+      exists st'. rewrite E'. f_equal. f_equal.
+      rewrite filter_all.
+      - apply rerank_from_idem.
+      - apply rerank_from_allowed. apply Forall_forall. intros h Hin. apply filter_In in Hin. tauto.
+    Qed.
+
     (* ------------------------------------------------------------------ call sites *)
     Variable C : Type.
     Variable build_context : list hit -> C.
@@ -749,6 +780,54 @@ Section Decide.
     Theorem vec_search_enforce_no_tenant_refuted_ex :
       exists pre top_k c r, no_tenant json_str c /\ vsearch pre top_k c Enforce = Ok r.
     Proof. exists (Ok []), 0%nat, None, (empty_response P C build_context). split; [exact I | reflexivity]. Qed.
+
+
+    (* ------------------------------------------------------------------ composition *)
+    (* a stage that only draws from readable lists returns a readable list *)
+    Theorem draws_from_readable c (post : list (list hit) -> list hit) ls :
+      draws_from post -> Forall (all_readable c) ls -> all_readable c (post ls).
+    Proof.
+      intros Hd Hl. unfold all_readable. apply Forall_forall. intros h Hin.
+      destruct (Hd ls h Hin) as [l [h' [Hl' [Hh' Ef]]]].
+      rewrite Forall_forall in Hl. specialize (Hl l Hl'). unfold all_readable in Hl.
+      rewrite Forall_forall in Hl. rewrite <- Ef. apply Hl; exact Hh'.
+    Qed.
+
+    (* ... and so is every response of ask: hits a fixed point of the last step, citations and
+       fragments derived from exactly those hits (the relation the `final` stream checks) *)
+    Theorem ask_response_fixed_point pre context_only c a :
+      ask pre context_only (Some c) Enforce = Ok a ->
+      (exists st, apply (a_hits a) (Some c) Enforce = Ok (a_hits a, st)) /\
+      a_citations a = (if context_only then [] else citations_from P 0 (a_hits a)) /\
+      a_fragments a = map (fun h => (h_rank h, h_frame h)) (a_hits a).
+    Proof.
+      unfold ask_acl. destruct pre as [[hits total]|k|s]; try discriminate.
+      destruct (apply hits (Some c) Enforce) as [[out st]|k|s] eqn:Ea; try discriminate.
+      intros E. injection E as <-. cbn. split; [|split; reflexivity].
+      eapply apply_enforce_fixed_point; exact Ea.
+    Qed.
+
+    (* ask with its candidate lists spelled out: whatever the fusion stage does and whatever the
+       unfiltered (timeline) lists hold, the final pass makes the response readable *)
+    Theorem ask_pipeline_no_leak fuse filtered unfiltered total context_only c a :
+      ask_pipeline json_str json_arr P frame_meta C build_context fuse filtered unfiltered total context_only (Some c) Enforce = Ok a ->
+      all_readable c (a_hits a) /\
+      Forall (fun ci => readable c (snd ci)) (a_citations a) /\
+      Forall (fun fr => readable c (snd fr)) (a_fragments a).
+    Proof.
+      unfold ask_pipeline. intros E. apply ask_no_leak in E as [H1 [_ [_ [H2 H3]]]]. auto.
+    Qed.
+
+    (* without the final pass the response is readable only if nothing unfiltered went in:
+       filtered lists + a fusion stage that only draws from them *)
+    Theorem ask_no_final_pass_readable_if_all_filtered fuse filtered total context_only c a :
+      draws_from fuse -> Forall (all_readable c) filtered ->
+      ask_pipeline_no_final_pass P C build_context fuse filtered [] total context_only = Ok a ->
+      all_readable c (a_hits a).
+    Proof.
+      intros Hd Hf E. unfold ask_pipeline_no_final_pass in E. injection E as <-. cbn.
+      rewrite app_nil_r. apply draws_from_readable; assumption.
+    Qed.
 
     (* the refutation: on the early exits Enforce without a tenant is Ok *)
     Theorem search_enforce_no_tenant_refuted :
